@@ -209,6 +209,10 @@ def _id_problem(it, arg, X, not_before: int, not_after: int, what: str) -> Optio
     if not (arg[0] == "call" and arg[1] == ("name", "id") and len(arg[2]) == 1 and arg[2][0] == und):
         return f"{what} names `{show(arg, it)[:40]}`, not id({show(X, it)[:20]}._underlying)"
     ev = _eval_event(it, arg)
+    # the storage whose identity is taken was READ at some point (possibly into a local, long before id() is applied to it)
+    rd = next((r for r in it.reads if r.term is arg[2][0]), None)
+    if rd is not None and (ev is None or rd.seq < ev.seq):
+        ev = rd
     if ev is None:
         return None
     for sw, obj, _ in _swap_events(it):
